@@ -46,9 +46,33 @@ func (a *inferArgs) runPre() {
 		}
 		func() {
 			defer func() { recover() }()
-			jsonschema.ForType(t, o)
+			if r, err := jsonschema.ForType(t, o); err == nil && r != nil {
+				scribbleSchema(r, a.scribbleDir())
+			}
 		}()
 	}
+	// the call under test itself, made once before with the same arguments; the caller then edits that result in place
+	if t, err := buildType(a.Type); err == nil {
+		if o, err := a.forOptions(); err == nil {
+			func() {
+				defer func() { recover() }()
+				if r, err := jsonschema.ForType(t, o); err == nil && r != nil {
+					scribbleSchema(r, a.scribbleDir())
+				}
+				if r, err := jsonschema.ForType(t, nil); err == nil && r != nil {
+					scribbleSchema(r, a.scribbleDir())
+				}
+			}()
+		}
+	}
+}
+
+// scribbleDir: histories alternate between tightening and widening edits (derived from the operation, so that it replays)
+func (a *inferArgs) scribbleDir() float64 {
+	if (len(a.Type)+len(a.Pre))%2 == 0 {
+		return 1
+	}
+	return -1
 }
 
 // restKeys: of the keys encoding/json emits for a fully populated struct value, those that are NOT promoted through an embedded
@@ -197,6 +221,7 @@ func init() {
 		var pb0 []byte
 		if sp0, err := jsonschema.ForType(t, plain); err == nil && sp0 != nil {
 			pb0, _ = json.Marshal(sp0)
+			scribbleSchema(sp0, 1)
 		}
 		a.runPre()
 		s1, err := jsonschema.ForType(t, opts)
